@@ -230,9 +230,10 @@ def oracle(log, problem):
                 add("boundary-hit-without-boundary-action", s,
                     {"tie": s.stepa == s.lim, "action_after_along": log.label(s.acta),
                      "on_boundary": s.bnda, "recorded_propagation": s.G})
-        # the volume reported after the step (= pre-step volume of the NEXT step) contains the
-        # point just ahead of the post-step position
-        if s.st[4] == "a":
+        # a track left ON a surface: the volume reported after the step (= pre-step volume of the
+        # NEXT step) is the one containing the point just ahead of the post-step position
+        # (interior post-step points are covered by the point-location rule below)
+        if s.st[4] == "a" and s.bnd1 == 1:
             q = [p + 1e-6 * d for p, d in zip(s.pos1, s.dir1)]
             lab = "[OUTSIDE]" if s.vol1 < 0 else vol_label.get(s.vol1, "?")
             if lab not in locate(problem, q):
